@@ -69,13 +69,7 @@ void vh_run_case(Ctx &ctx)
     monitorLogger(*validator, "Validator::validateModel", replay);
     bool accepted = validator->issueCount() == 0;
     if (!hostile && !accepted) {
-        // one known shape gets its own key: the id of ONE import element counted once per imported entity
-        std::string d = validator->issue(0)->description();
-        bool onlyImportSources = d.find("Duplicated identifier attribute") != std::string::npos && d.find("import source for") != std::string::npos;
-        for (size_t pos = d.find("\n - "); pos != std::string::npos && onlyImportSources; pos = d.find("\n - ", pos + 1)) {
-            onlyImportSources = d.compare(pos + 4, 17, "import source for") == 0;
-        }
-        viol("C04", "valid-by-construction-rejected:" + ruleName(validator->issue(0)->referenceRule()) + (onlyImportSources ? ":ids-of-import-sources-only" : ""), issueSummary(*validator), replay);
+        viol("C04", "valid-by-construction-rejected:" + rejectionKey(*validator), issueSummary(*validator), replay);
     }
     stat(accepted ? "validator_accepted" : "validator_rejected");
 
